@@ -4,6 +4,7 @@ go 1.23.0
 
 require (
 	github.com/folbricht/desync v0.0.0
+	github.com/hanwen/go-fuse/v2 v2.2.0
 	github.com/klauspost/compress v1.16.4
 	github.com/minio/minio-go/v6 v6.0.57
 	github.com/pkg/errors v0.9.1
@@ -26,7 +27,6 @@ require (
 	github.com/google/uuid v1.3.0 // indirect
 	github.com/googleapis/enterprise-certificate-proxy v0.2.3 // indirect
 	github.com/googleapis/gax-go/v2 v2.8.0 // indirect
-	github.com/hanwen/go-fuse/v2 v2.2.0 // indirect
 	github.com/json-iterator/go v1.1.12 // indirect
 	github.com/klauspost/cpuid/v2 v2.0.4 // indirect
 	github.com/kr/fs v0.1.0 // indirect
